@@ -97,17 +97,21 @@ def _static(
     for d in [Path(dawgie.context.fe_path).resolve(), Path(bdir).resolve()]:
         ffn = (d / fn).resolve()
 
-        if not ffn.is_relative_to(d):
+        if ffn.is_relative_to(d) and ffn.is_dir():
+            # the index page may itself be a link that leads outside
+            ffn = (ffn / 'index.html').resolve()
+
+        valid = ffn.is_relative_to(d)
+
+        if not valid:
             result += b'attempted jail break'
             LOG.error('tried a jailbreak with %s from %s', ffn, d)
             continue
-        if ffn.is_dir():
-            ffn = ffn / 'index.html'
         if ffn.is_file():
             break
         result += bytes(ffn) + b'     '
 
-    if ffn.is_file():
+    if valid and ffn.is_file():
         if isdep and ffn.suffix.lower() == '.html':
             with open(ffn, 'rt', encoding='utf-8') as f:
                 html = f.read()
@@ -145,7 +149,7 @@ def _static(
                 request.setHeader(b'Content-Type', b'application/javascript')
             with open(ffn, 'rb') as f:
                 result = f.read()
-    else:
+    elif valid:
         LOG.warning('request for the non-existent file %s', ffn)
 
     return result
